@@ -8,12 +8,18 @@ from .facts import norm_path
 
 QMOD = 'graphql_client_codegen::query'
 
+# lookup -> (role, the parsed-document members whose names must be resolved through it; () = at least one call)
 LOOKUPS = {
-    'Schema::find_type': ('type-by-name', 3),
-    'Query::find_fragment': ('fragment-by-name', 3),
-    'ObjectLike::get_field_by_name': ('field-on-parent', 1),
-    'Schema::mutation_type': ('mutation-root', 1),
-    'Schema::subscription_type': ('subscription-root', 1),
+    'Schema::find_type': ('type-by-name', ('FragmentDefinition.type_condition', 'InlineFragment.type_condition')),
+    'Query::find_fragment': ('fragment-by-name', ('FragmentDefinition.name', 'FragmentSpread.fragment_name')),
+    'ObjectLike::get_field_by_name': ('field-on-parent', ('Field.name',)),
+    'Schema::mutation_type': ('mutation-root', ()),
+    'Schema::subscription_type': ('subscription-root', ()),
+}
+# every arm that handles this kind of parsed selection reaches (directly or through helpers) this lookup
+ARM_LOOKUPS = {
+    'graphql_parser::query::Selection::FragmentSpread': 'Query::find_fragment',
+    'graphql_parser::query::Selection::InlineFragment': 'Schema::find_type',
 }
 
 
@@ -62,6 +68,7 @@ def rule_lookup_checked(ctx):
     obs = []
     cg = ctx.crate('codegen')
     counts = {}
+    covered = {}
     for fn in cg.all_fns():
         if not norm_path(fn.path).startswith(QMOD) or fn.from_macro:
             continue
@@ -77,6 +84,8 @@ def rule_lookup_checked(ctx):
             suf, role = hit
             ordn[suf] = ordn.get(suf, 0) + 1
             counts[suf] = counts.get(suf, 0) + 1
+            if n.get('args'):
+                covered.setdefault(suf, set()).update(TM.fields_in(ctx.pv.eval(fn, n['args'][0], H.sym_env(fn), 0)))
             inst = '%s/%s#%d' % (short(fn.path), role, ordn[suf])
             kind, detail = H.consumption(fn, n)
             loc = n.get('sp', '')
@@ -91,10 +100,36 @@ def rule_lookup_checked(ctx):
                 d = detail if isinstance(detail, str) else kind
                 obs.append(bad('LOOKUP-CHECKED', inst, 'result of %s is %s (%s): a failed lookup does not end generation with an error' % (suf, kind, d),
                                loc, 'an unknown field/fragment/type/root is accepted'))
-    for suf, (role, floor) in LOOKUPS.items():
-        if counts.get(suf, 0) < floor:
-            obs.append(bad('LOOKUP-CHECKED', 'floor/' + role, 'anchor-missing: expected >= %d checked `%s` lookups while binding the query, found %d'
-                           % (floor, suf, counts.get(suf, 0)), '', 'the corresponding invalid operation is not rejected'))
+    for suf, (role, members) in LOOKUPS.items():
+        if counts.get(suf, 0) < 1:
+            obs.append(bad('LOOKUP-CHECKED', 'floor/' + role, 'anchor-missing: no `%s` lookup while binding the query' % suf, '',
+                           'the corresponding invalid operation is not rejected'))
+        for m in members:
+            if m not in covered.get(suf, set()):
+                obs.append(bad('LOOKUP-CHECKED', 'floor/%s/%s' % (role, m), 'anchor-missing: no `%s` lookup is fed from %s (lookups are fed from %s)'
+                               % (suf, m, sorted(x for x in covered.get(suf, set()) if '.' in x)[:6]), '', 'a name of the document is never resolved against the schema/query'))
+    # arms that handle a spread / an inline fragment reach the lookup
+    narm = {}
+    for fn in cg.all_fns():
+        if not norm_path(fn.path).startswith(QMOD) or fn.from_macro:
+            continue
+        for mt in fn.walk(lambda x: x['k'] == 'match'):
+            for a in mt['arms']:
+                ps = P.pat_summary(a['pat'])
+                want = ARM_LOOKUPS.get(ps[1]) if ps[0] == 'ctor' else None
+                if not want:
+                    continue
+                narm[want] = narm.get(want, 0) + 1
+                reached = any(n_['k'] in ('call', 'mcall') and any(p.endswith(want) for p in H.callee_paths(n_)) for _f, n_ in H.deep_nodes(ctx, fn, a['body'], 3))
+                inst = '%s/arm[%s]' % (short(fn.path), ps[1].split('::')[-1])
+                if reached:
+                    obs.append(ok('LOOKUP-CHECKED', inst, 'the arm resolves the name through %s' % want, a['body'].get('sp', '')))
+                else:
+                    obs.append(bad('LOOKUP-CHECKED', inst, 'the arm never calls %s: the name it carries is not resolved' % want, a['body'].get('sp', ''),
+                                   'an unknown fragment / type condition is accepted'))
+    for want in set(ARM_LOOKUPS.values()):
+        if narm.get(want, 0) < 1:
+            obs.append(bad('LOOKUP-CHECKED', 'floor/arms/' + want, 'anchor-missing: no selection arm found that should reach %s' % want))
     return obs
 
 
